@@ -436,7 +436,11 @@ Definition step (st : state) (p : op) : mres state :=
     let '(b, st1) := alloc st true cells in
     MOk (mkst (heap st1) (slots st1) (exts st1 ++ [b]))
   | OWrap v e r c =>
-    (* rows_(rows), cols_(cols), data_(data), owns_(false): nothing is checked *)
+    (* rows_(rows), cols_(cols), data_(data), owns_(false): the constructor
+       checks nothing.  Negative dimensions and pointers that are not one of
+       the caller's arrays are outside the domain (BadShape / NoSuchArray);
+       a shape larger than the array is accepted here as in the C++ and shows
+       up as IndexOutOfBounds when cells beyond the array are accessed. *)
     mdo _ <- empty_slot st v;
     match nth_error (exts st) e with
     | None => MErr NoSuchArray
